@@ -20,3 +20,20 @@ Fixpoint list_eqb {A} (eqb : A -> A -> bool) (l1 l2 : list A) : bool :=
   | _, _ => false
   end.
 Definition zlist_eqb := list_eqb Z.eqb.
+
+(** Large deterministic values and digests, so that cases with tens of
+    thousands of octets need neither big literals nor big printed results. *)
+Definition pattern_byte (i : Z) : Z := (i * 7 + 3) mod 251.
+Definition pattern (n : Z) : list Z := map (fun i => pattern_byte (Z.of_nat i)) (seq 0 (Z.to_nat n)).
+
+Fixpoint wsum (acc i : Z) (l : list Z) : Z :=
+  match l with
+  | [] => acc
+  | b :: r => wsum ((acc + (i mod 65521 + 1) * (b + 1)) mod 2147483647) (i + 1) r
+  end.
+(** (length, position-weighted checksum, first 12, last 12) *)
+Definition digest (l : list Z) : Z * Z * list Z * list Z :=
+  (Z.of_nat (length l), wsum 0 0 l, firstn 12 l, skipn (length l - 12) l).
+Definition digest_eqb (a b : Z * Z * list Z * list Z) : bool :=
+  let '(n1, s1, h1, t1) := a in let '(n2, s2, h2, t2) := b in
+  (n1 =? n2) && (s1 =? s2) && list_eqb Z.eqb h1 h2 && list_eqb Z.eqb t1 t2.
